@@ -165,6 +165,95 @@ func vpH_C15_of_actor() {
 	vpReach("end")
 }
 
+// AddTo fills in the built collection IRI where none is set and leaves an explicit one alone, for
+// every collection name, whatever the neighbouring collection properties hold
+func vpH_C15_addto() {
+	id := IRI(vpOwner(1, false, false, 0))
+	explicit := IRI("https://x.ex/" + string([]byte{vpAlnum()}))
+	isActor := vpBool()
+	var names []CollectionPath
+	var x Item
+	a := &Actor{ID: id, Type: PersonType}
+	o := &Object{ID: id, Type: NoteType}
+	if isActor {
+		names = []CollectionPath{Inbox, Outbox, Liked, Following, Followers}
+		x = a
+	} else {
+		names = []CollectionPath{Likes, Shares, Replies}
+		x = o
+	}
+	which := vpChoice(len(names))
+	other := vpChoice(len(names))
+	c := names[which]
+	get := func(c CollectionPath) Item {
+		switch c {
+		case Inbox:
+			return a.Inbox
+		case Outbox:
+			return a.Outbox
+		case Liked:
+			return a.Liked
+		case Following:
+			return a.Following
+		case Followers:
+			return a.Followers
+		case Likes:
+			return o.Likes
+		case Shares:
+			return o.Shares
+		}
+		return o.Replies
+	}
+	set := func(c CollectionPath, v Item) {
+		switch c {
+		case Inbox:
+			a.Inbox = v
+		case Outbox:
+			a.Outbox = v
+		case Liked:
+			a.Liked = v
+		case Following:
+			a.Following = v
+		case Followers:
+			a.Followers = v
+		case Likes:
+			o.Likes = v
+		case Shares:
+			o.Shares = v
+		default:
+			o.Replies = v
+		}
+	}
+	wasSet := vpBool()
+	if wasSet {
+		set(c, explicit)
+	}
+	otherSet := other != which && vpBool()
+	otherVal := IRI("https://y.ex/other")
+	if otherSet {
+		set(names[other], otherVal)
+	}
+	iri, ok := c.AddTo(x)
+	if wasSet {
+		vpAssert("addto/explicit-kept", get(c) != nil && get(c).GetLink() == explicit)
+		vpAssert("addto/explicit-reports-nothing-added", !ok)
+	} else {
+		vpAssert("addto/built-set", ok && iri == IRIf(id, c) && get(c) != nil && get(c).GetLink() == IRIf(id, c))
+	}
+	for i, oc := range names {
+		if i == which {
+			continue
+		}
+		if otherSet && i == other {
+			vpAssert("addto/others-untouched", get(oc) != nil && get(oc).GetLink() == otherVal)
+		} else {
+			vpAssert("addto/others-untouched", get(oc) == nil)
+		}
+	}
+	vpAssert("addto/iri-agrees", c.IRI(x) == get(c).GetLink())
+	vpReach("end")
+}
+
 func vpW_C15_twin() {
 	o := vpOwner(1, false, false, 0)
 	_, _ = Split(IRIf(IRI(o), Inbox))
